@@ -29,6 +29,9 @@ import Proofs.InvocationText
 import Martian.JsonBytes
 import Proofs.JsonBytes
 import Proofs.JsonBytesFilter
+import Martian.InvocationFork
+import Proofs.InvocationFork
+import Proofs.InvocationForkTyped
 import Gen.Facts
 
 namespace Props.C16
@@ -611,6 +614,189 @@ example : floatsOk { text := fun _ => [0x2D, 0x30], val := fun _ => ⟨true, 0, 
   decide +kernel
 
 end TextLeg
+
+/-! ## every fork's `_invocation` (audit C16-H2): `Fork.writeInvocation`
+
+`writeInvocation` = `BuildCallSource(call.Id, resolveInputs(forkId, keepSplit = true), callable, …)`.
+`Martian.InvocationFork`: `MV` are the values `resolveInputs` returns in their dynamic types (`nil`,
+a `ValExp` of the compiled source – possibly a `SplitExp` no fork index resolves –, `RawMessage`,
+`LazyArgumentMap`, `MarshalerMap`, `marshallerArray`), `marshal` their `MarshalJSON` (what `_args`
+receives), `convertMV` the cases of `convertToExp`, `invocationOf sig mapped args` the loop of
+`BuildCallAst` (`none` = the error after which an EMPTY `_invocation` is written), `printFork` /
+`forkTextLeg` the real formatter / lexer / parser models of C09 on the call (`Id ≠ DecId` for
+`call X as Y`), `forkData` the invocation data the call stands for.  WHICH value a fork gets is C01's
+model (`ResolverStatic.evalRT` / `runtimeArgs`, tied to the real `_args` per run);
+`argsOfNode` reads it.  Tie per run (harness/c16_fork.go, Tier A): for every fork of every node
+the model's text = the call statement of the real `_invocation` bytes, `forkCompiles` = "the real
+`_invocation` compiles", and for stage forks the data of the re-read text = the delivered `_args`. -/
+section ForkInvocation
+open Martian.InvocationText Martian.InvocationFork
+
+/-- THE STRUCTURED CASES OF `convertToExp` ARE THE RAW CASE: a run-time value (no source literal
+inside) that is well-typed at `t` converts – member by member through `LazyArgumentMap` /
+`MarshalerMap` / `marshallerArray` / `nil`, with `possibleStructType` and `structMemberType` – to
+exactly the expression `convertToExp` makes of its marshalled JSON (`ParseValExp` +
+`fixExpressionTypes`).  (Ill-typed values differ: an undeclared key of a struct is converted at the
+struct's own type by the structured cases and left alone by `fixExpressionTypes`.) -/
+theorem fork_values_convert_as_json (v : MV) (t : TypeId) (hn : noVal v = true)
+    (hw : jWt t.base t.arrayDim t.mapDim (marshal v) = true) :
+    convertMV t.base t.arrayDim t.mapDim v = (convert t (marshal v)).map ofExp :=
+  convertMV_eq_convert v t.base t.arrayDim t.mapDim hn hw
+
+/-- … and the binding of such a value (integers in range) is a plain binding of a WELL-TYPED
+expression: shape and struct-vs-map flags as the compiler demands for the parameter -/
+theorem stage_fork_binding_well_typed (v : MV) (t : TypeId) (hn : noVal v = true)
+    (hw : jWt t.base t.arrayDim t.mapDim (marshal v) = true) (hi : mvIntsOk v = true) :
+    ∃ e, bindingOf false t v = some (.plain (ofExp e)) ∧ wt t.base t.arrayDim t.mapDim e = true := by
+  obtain ⟨e, he, hc, hwt, _⟩ := convertMV_wt v t.base t.arrayDim t.mapDim hn hw hi
+  have hwrap : wrapBinding false (ofExp e) = .plain (ofExp e) := by cases e <;> rfl
+  cases v with
+  | nil =>
+    refine ⟨.lit .null, rfl, by simp [wt, Lit.isNull]⟩
+  | raw j => exact ⟨e, by simp [bindingOf, buildBinding, marshal] at hc ⊢; simp [hc, ofArg], hwt⟩
+  | val x => simp [noVal] at hn
+  | lazy kvs => exact ⟨e, by simp [bindingOf, he, hwrap], hwt⟩
+  | mmap kvs => exact ⟨e, by simp [bindingOf, he, hwrap], hwt⟩
+  | marr xs => exact ⟨e, by simp [bindingOf, he, hwrap], hwt⟩
+
+/-- the data of the call built from a fork's resolved inputs: every declared parameter, the
+marshalled value (floats normalised), `{"split": collection}` and a `splitargs` entry for a
+parameter left split -/
+theorem fork_invocation_data (sig : Sig) (mapped : List Str) (args : List (Str × MV))
+    (ibs : List (Str × IArg)) (bs : List (Str × Arg))
+    (h : invocationOf sig mapped args = some ibs) (hp : plainBinds ibs = some bs) :
+    dataOf bs = forkData sig mapped args :=
+  dataOf_invocationOf sig mapped args ibs bs h hp
+
+/-- ANY FORK (stage, top-level pipeline, sub-pipeline) whose invocation has one of the shapes that
+compile (`forkCompiles`: no `split` inside a value, every split operand a non-empty array / map
+literal, all of one length / key set): the `_invocation` text, lexed and parsed, is a call of the
+node's callable under the node's call id whose data is exactly the fork's resolved inputs. -/
+theorem fork_invocation_roundtrip (g : G) (decId id : Str) (sig : Sig) (mapped : List Str)
+    (args : List (Str × MV)) (ibs : List (Str × IArg))
+    (h : invocationOf sig mapped args = some ibs) (hc : forkCompiles g decId id ibs = true) :
+    ∃ bs, plainBinds ibs = some bs ∧ (floatsOkBinds g bs = true →
+      (forkTextLeg g decId id bs).map (fun c => (c.1, c.2.1, dataOf c.2.2))
+        = some (decId, id, forkData sig mapped args)) := by
+  unfold forkCompiles at hc
+  cases hp : plainBinds ibs with
+  | none => simp [hp] at hc
+  | some bs =>
+    simp only [hp, Bool.and_eq_true] at hc
+    refine ⟨bs, rfl, fun hf => ?_⟩
+    rw [fork_text_leg g decId id bs hc.1 hf]
+    simp only [Option.map_some, dataOf_reparse, dataOf_invocationOf sig mapped args ibs bs h hp]
+
+/-- STAGE FORKS.  The fork id of a stage fork has an index for every enclosing map call, so every
+split is resolved (`splitFree`) and no parameter is left split (`mapped = []`).  With the integers
+of the resolved values in range `BuildCallAst` succeeds, nothing of the call has a split inside,
+and – the text being printable (`wfForkText`: identifiers, valid UTF-8, sorted keys) and strconv
+behaving (`floatsOkBinds`) – `_invocation`, lexed and parsed with the real grammar, is
+`call <callable> [as <id>](…)` whose data is `canonData` of the fork's marshalled arguments: every
+declared parameter, the value `_args` has (integral floats as integers), no split argument. -/
+theorem stage_fork_invocation_roundtrip (g : G) (decId id : Str) (sig : Sig) (args : List (Str × MV))
+    (hs : ∀ p v, lookupMV args p = some v → splitFree v = true)
+    (hi : ∀ p v, lookupMV args p = some v → mvIntsOk v = true) :
+    ∃ ibs bs, invocationOf sig [] args = some ibs ∧ plainBinds ibs = some bs ∧
+      (wfForkText g decId id bs = true → floatsOkBinds g bs = true →
+        (forkTextLeg g decId id bs).map (fun c => (c.1, c.2.1, dataOf c.2.2))
+          = some (decId, id, canonData sig ⟨marshalArgs args, []⟩)) := by
+  obtain ⟨ibs, h⟩ := invocationOf_isSome args hi sig
+  obtain ⟨bs, hp⟩ := plainBinds_of_splitFree args hs sig ibs h
+  refine ⟨ibs, bs, h, hp, fun hw hf => ?_⟩
+  rw [fork_text_leg g decId id bs hw hf]
+  simp only [Option.map_some, dataOf_reparse, dataOf_invocationOf sig [] args ibs bs h hp,
+    forkData_stage args hs sig]
+
+/-- THE TOP-LEVEL PIPELINE'S FORK.  Its fork id is empty; its inputs are the literals of the
+invocation source, a `split` argument of a top-level `map call` arriving as the `SplitExp` itself
+(`topOk`).  The `_invocation` is then a `map call` again, and read back it is the callable with
+`forkData`: the plain arguments as they are and `{"split": collection}` + a `splitargs` entry for
+each split one. -/
+theorem top_fork_invocation_roundtrip (g : G) (decId id : Str) (sig : Sig) (args : List (Str × MV))
+    (hs : ∀ p v, lookupMV args p = some v → topOk v = true)
+    (ibs : List (Str × IArg)) (h : invocationOf sig [] args = some ibs) :
+    ∃ bs, plainBinds ibs = some bs ∧
+      (wfForkText g decId id bs = true → floatsOkBinds g bs = true →
+        (forkTextLeg g decId id bs).map (fun c => (c.1, c.2.1, dataOf c.2.2))
+          = some (decId, id, forkData sig [] args)) := by
+  obtain ⟨bs, hp⟩ := plainBinds_of_topOk args hs sig ibs h
+  refine ⟨bs, hp, fun hw hf => ?_⟩
+  rw [fork_text_leg g decId id bs hw hf]
+  simp only [Option.map_some, dataOf_reparse, dataOf_invocationOf sig [] args ibs bs h hp]
+
+/-- ON TOP OF C01's RESOLVER: for fork `f` of stage node `n` of the static phase, the arguments
+`argsOfNode` reads off `evalRT` marshal to exactly the argument record `runtimeArgs` (the model of
+the fork's `_args`), and the `_invocation` built from them round-trips to `canonData` of them. -/
+theorem resolver_fork_invocation_roundtrip (st : Martian.Dataflow.StructTable) (nf fuel : Nat)
+    (ρ : Martian.ResolverForks.Store) (f : Martian.ResolverForks.ForkAssign)
+    (n : Martian.ResolverStatic.SNode) (g : G) (decId id : Str) (args : List (Str × MV))
+    (ha : argsOfNode st nf ρ f n = some args)
+    (hi : ∀ p v, lookupMV args p = some v → mvIntsOk v = true) :
+    ofDJ (Martian.ResolverStatic.runtimeArgs st nf ρ f n) = some (.obj (kvsOfList (marshalArgs args))) ∧
+    ∃ ibs bs, invocationOf (sigOfNode st fuel n) [] args = some ibs ∧ plainBinds ibs = some bs ∧
+      (wfForkText g decId id bs = true → floatsOkBinds g bs = true →
+        (forkTextLeg g decId id bs).map (fun c => (c.1, c.2.1, dataOf c.2.2))
+          = some (decId, id, canonData (sigOfNode st fuel n) ⟨marshalArgs args, []⟩)) := by
+  refine ⟨?_, stage_fork_invocation_roundtrip g decId id _ args (fun p v hv => ?_) hi⟩
+  · simp only [Martian.ResolverStatic.runtimeArgs, ofDJ, marshalArgs_argsOfInputs st nf ρ f n.inputs args ha,
+      Option.map_some]
+  · obtain ⟨j, rfl⟩ := argsOfInputs_raw st nf ρ f n.inputs args ha p v hv
+    rfl
+
+/-- SUB-PIPELINE FORKS (known finding C16-N6), the shapes that do NOT compile.  A sub-pipeline's
+fork id is empty ("pipelines only sort-of fork"), so the splits of enclosing map calls in its
+bindings are unresolved and stay in place.  (1) A split INSIDE a value has no syntax: whatever the
+rest, `forkCompiles` is false. -/
+theorem nested_split_does_not_compile (g : G) (decId id : Str) (ibs : List (Str × IArg))
+    (h : plainBinds ibs = none) : forkCompiles g decId id ibs = false := by
+  simp [forkCompiles, h]
+
+private def nST : Str := [0x53, 0x54]   -- "ST"
+/-- witness (1), Tier A `call PL9(items = [13, split [null, null]])`: the resolver returns the array
+with the enclosing call's `SplitExp` as an element; `BuildCallAst` succeeds, the call does not compile -/
+example : (invocationOf [(kX, ⟨.scalar, 1, 0⟩)] []
+      [(kX, .marr (.cons (.val (.lit (.int 13)))
+        (.cons (.val (.split (.arr (.cons (.lit .null) (.cons (.lit .null) .nil))))) .nil)))]).map
+      (forkCompiles gEx nST nST) = some false := by decide +kernel
+/-- witness (2), `map call PL8(enable = split [])`: a map call over a run-time EMPTY collection -/
+example : (invocationOf [(kX, ⟨.scalar, 0, 0⟩)] [] [(kX, .val (.split (.arr .nil)))]).map
+      (forkCompiles gEx nST nST) = some false := by decide +kernel
+/-- witness (3), `map call PL8(x = split [true], y = split [[16, 0], [16, 0]])`: the split of the
+enclosing call (one element in this fork) next to the pipeline's own split of another length –
+each alone compiles, together "inconsistent split inputs" -/
+example :
+    (invocationOf [(kX, ⟨.scalar, 0, 0⟩), (kY, ⟨.scalar, 1, 0⟩)] []
+      [(kX, .val (.split (.arr (.cons (.lit (.bool true)) .nil)))),
+       (kY, .val (.split (.arr (.cons (.arr (.cons (.lit (.int 16)) .nil))
+          (.cons (.arr (.cons (.lit (.int 16)) .nil)) .nil)))))]).map (forkCompiles gEx nST nST) = some false
+    ∧ (invocationOf [(kX, ⟨.scalar, 0, 0⟩), (kY, ⟨.scalar, 1, 0⟩)] []
+      [(kX, .val (.split (.arr (.cons (.lit (.bool true)) .nil))))]).map (forkCompiles gEx nST nST) = some true := by
+  decide +kernel
+/-- non-vacuity, the top-level fork of `map call ST(x = split ["a", "b"], y = {…})` (a `SplitExp`
+argument, a struct from run-time data): compiles, and the theorem's hypotheses hold -/
+example :
+    (invocationOf [(kX, ⟨.scalar, 0, 0⟩), (kY, ⟨.struct innerT, 0, 0⟩)] []
+      [(kX, .val (.split (.arr (.cons (.lit (.str kA)) (.cons (.lit (.str kK)) .nil))))),
+       (kY, .lazy (.cons kA (.lit (.int 1)) .nil))]).map (forkCompiles gEx nST nST) = some true
+    ∧ topOk (.val (.split (.arr (.cons (.lit (.str kA)) (.cons (.lit (.str kK)) .nil))))) = true
+    ∧ topOk (.lazy (.cons kA (.lit (.int 1)) .nil)) = true := by decide +kernel
+/-- non-vacuity, a stage fork: a struct assembled member by member (`MarshalerMap` with a
+`LazyArgumentMap`, a `marshallerArray` and a source literal inside) is converted with the struct
+flags of `S` and marshals to the JSON `_args` has -/
+example :
+    (convertMV (.struct sT) 0 0 (.mmap (.cons kGrid (.marr (.cons (.raw (.arr (.cons (.lit (.int 1)) .nil))) .nil))
+        (.cons kInner (.lazy (.cons kA (.lit (.int 1)) .nil))
+        (.cons kName (.val (.lit (.str kA))) .nil))))).bind plainE
+      = some (.map true (.cons kGrid (.arr (.cons (.arr (.cons (.lit (.int 1)) .nil)) .nil))
+          (.cons kInner (.map true (.cons kA (.lit (.int 1)) .nil))
+          (.cons kName (.lit (.str kA)) .nil)))) := by rfl
+/-- non-vacuity of the resolver reading: an int and a string atom of C01's value type -/
+example : ofDJ (.obj [("x", .atom "1"), ("s", .arr [.atom "\"a\"", .dnull])])
+    = some (.obj (.cons kX (.lit (.int 1))
+        (.cons [0x73] (.arr (.cons (.lit (.str kA)) (.cons (.lit .null) .nil))) .nil))) := by rfl
+
+end ForkInvocation
 
 /-! ## the string leaf at byte level
 
